@@ -12,7 +12,7 @@ from __future__ import annotations
 
 import ast
 
-from sa.load import AnalysisError, Program, callee_name, dotted, norm
+from sa.load import walk_no_nested, AnalysisError, Program, callee_name, dotted, norm
 
 SRC_ATTRS = {"commit_time", "author_time"}
 SRC_CALLS = {"lookup_stamp"}
@@ -280,8 +280,58 @@ def run(prog: Program, rep, tier="quick"):
     from rules import c14
     cgm = prog.module("dulwich/commit_graph.py")
     c14.enumerate_last(prog, rep, "R13.3", cgm, prog.func(cgm.rel, "CommitGraph.write_to_file"))
+    r13_4(prog, rep)
     rep.count("functions analysed", sum(n_funcs.values()))
     if n_funcs["dulwich/graph.py"] < 3 or n_funcs["dulwich/walk.py"] < 4:
         raise AnalysisError(f"too few traversal functions found: {n_funcs}")
     rep.floor("R13.1", 3)
     rep.floor("R13.2", 5)
+    rep.floor("R13.4", 4)
+
+
+_TIMEISH = ("commit_time", "_min_time", "since", "until", "min_stamp")
+
+
+def r13_4(prog, rep):
+    """Ties never prune: the property holds for monotone (non-strictly increasing) timestamps, so a comparison between two
+    timestamps may stop, skip or start the slop countdown only on a strict inequality.  The give-up side of each such
+    comparison in walk.py is found from the code (the branch that assigns reset_extra_commits = False or returns False);
+    it must be the side that excludes equality."""
+    rel = "dulwich/walk.py"
+    rep.rule("R13.4", "ORDERINGS: a comparison between two timestamps prunes (countdown / skip / stop) only on a strict inequality - ties keep walking")
+    m = prog.module(rel)
+    n = 0
+    for q, f in sorted(m.funcs.items()):
+        for iff in [x for x in walk_no_nested(f.node) if isinstance(x, ast.If)]:
+            cands = [iff.test] if isinstance(iff.test, ast.Compare) else \
+                [v for v in iff.test.values if isinstance(v, ast.Compare)] if isinstance(iff.test, ast.BoolOp) and isinstance(iff.test.op, ast.And) else []
+            for c in cands:
+                if len(c.ops) != 1 or not isinstance(c.ops[0], (ast.Lt, ast.LtE, ast.Gt, ast.GtE)):
+                    continue
+                l, r = norm(c.left), norm(c.comparators[0])
+                if not (any(k in l for k in _TIMEISH) and any(k in r for k in _TIMEISH)):
+                    continue
+
+                def prunes(stmts):
+                    for s in stmts:
+                        for x in ast.walk(s):
+                            if isinstance(x, ast.Assign) and norm(x) == "reset_extra_commits = False":
+                                return True
+                            if isinstance(x, ast.Return) and isinstance(x.value, ast.Constant) and x.value.value is False:
+                                return True
+                            if isinstance(x, (ast.Break,)):
+                                return True
+                    return False
+                pb, pe = prunes(iff.body), prunes(iff.orelse)
+                if pb == pe:
+                    if pb:
+                        raise AnalysisError(f"{rel}:{iff.lineno} both sides of a timestamp comparison prune: shape not understood")
+                    continue
+                n += 1
+                strict = isinstance(c.ops[0], (ast.Lt, ast.Gt))
+                ok = strict if pb else not strict
+                rep.ob("R13.4", rel, q, f"`{norm(c, 70)}`: the pruning side ({'true' if pb else 'false'} branch) excludes equal timestamps", ok,
+                       "with equal commit times the queue order between a commit and the ancestors of an excluded commit is arbitrary; "
+                       "pruning on a tie drops or keeps commits depending on that order", c.lineno)
+    if n < 4:
+        raise AnalysisError(f"expected >= 4 timestamp comparisons that prune in walk.py, found {n}")
